@@ -172,6 +172,12 @@ class CapOr(GlobalStopCondition):
         self.reads_best = reads_best  # a user condition of the kind "stop when the target fitness is reached"
 
     def __call__(self, tree) -> bool:
+        run = self.trace.run
+        if run is not None and run.tree is None:
+            # the tree was built by pyhms.hms.hms(): the first loop-head consultation is the first sight of it
+            run.tree = tree
+            for ch in run.checkers:
+                ch.on_start(run)
         if self.reads_best:
             try:
                 _ = tree.best_individual.fitness  # looked at, never used: reading must not change anything
@@ -877,11 +883,25 @@ class Run:
     # -- execution ------------------------------------------------------------
     def run_all(self) -> None:
         """the real DemeTree.run(); boundaries fire from the loop-head GSC consultations"""
-        if self.tree is None and not self.start():
+        via_hms = self.tree is None and self.sc.get("entry") == "hms" and not any(lv["engine"] == "Custom" for lv in self.sc["levels"])
+        if not via_hms and self.tree is None and not self.start():
             return
         try:
             with time_limit():
-                self.tree.run()
+                if via_hms:
+                    # the one-call entry point: hms(level_config, gsc, sprout_cond, options) builds config and tree and runs it
+                    from pyhms.hms import hms as hms_entry
+
+                    cfg = self.build_config()
+                    self.via_hms = True
+                    got = hms_entry(cfg.levels, self.gsc, self.mechanism, dict(self.sc["options"]))
+                    if self.tree is None:  # (never consulted the stop condition)
+                        self.tree = got
+                        for ch in self.checkers:
+                            ch.on_start(self)
+                    self.config = got.config
+                else:
+                    self.tree.run()
         except CaseTimeout as e:
             self.crash = ("timeout", str(e))
             self.timed_out = True
